@@ -207,7 +207,7 @@ func c11ParsedStep(ms refmodel.MatrixSpec, r *rand.Rand) (*pipeline.CommandStep,
 func checkC11(c *run.Ctx) {
 	vals := []string{"x", "y", "z"}
 	subsets := [][]string{{}, {"x"}, {"y"}, {"x", "y"}}
-	skips := []any{nil, false, true, "reason"}
+	skips := []any{nil, false, true, "reason", ""} // the kinds the property names: absent, false, true, string (the empty string is a string)
 	dimSets := [][]string{{""}, {"a"}, {"a", "b"}, {"a", "b", "c"}}
 
 	// all tuples over a dim list with values x,y,z
